@@ -6,25 +6,25 @@ From Coq Require Import List String Ascii Arith Bool Lia.
 Import ListNotations.
 From IT Require Import Text.Atp Text.AtpThm Text.Nested Text.NestedThm.
 
-(* String::replace_range(lo..=hi, new) *)
-Definition replace_range_incl (lo hi : nat) (new t : str) : option str :=
-  if Nat.leb lo (S hi) && Nat.ltb hi (List.length t) then Some (firstn lo t ++ new ++ skipn (S hi) t) else None.
+(* String::replace_range(lo..hi, new) *)
+Definition replace_range (lo hi : nat) (new t : str) : option str :=
+  if Nat.leb lo hi && Nat.leb hi (List.length t) then Some (firstn lo t ++ new ++ skipn hi t) else None.
 
 Definition split_file (src : str) (item_end a_idx : nat) (a_str : str) (remove : bool) : option (str * str) :=
   if Nat.leb item_end (List.length src) then
     let prefix := firstn item_end src in
     let suffix := skipn item_end src in
-    let e := a_idx + List.length a_str in
+    let e := a_idx + List.length a_str in        (* first byte behind the attribute: stays in place *)
     if remove then
-      match replace_range_incl a_idx e [] prefix with
+      match replace_range a_idx e [] prefix with
       | Some p => Some (p, suffix)
       | None => None
       end
     else
-      match slice a_idx (S e) prefix with
+      match slice a_idx e prefix with
       | Some old =>
         match edit_remove a_str old with
-        | Some new => match replace_range_incl a_idx e new prefix with
+        | Some new => match replace_range a_idx e new prefix with
                       | Some p => Some (p, suffix)
                       | None => None
                       end
@@ -49,29 +49,28 @@ Definition edit_write (src : str) (item_end a_idx : nat) (a_str : str) (remove :
   end.
 
 (* ---------- theorem ---------- *)
-Lemma replace_range_incl_split : forall lo hi new t t', replace_range_incl lo hi new t = Some t' ->
-  lo <= S hi /\ S hi <= List.length t /\ t' = firstn lo t ++ new ++ skipn (S hi) t /\
-  t = firstn lo t ++ firstn (S hi - lo) (skipn lo t) ++ skipn (S hi) t.
+Lemma replace_range_split : forall lo hi new t t', replace_range lo hi new t = Some t' ->
+  lo <= hi /\ hi <= List.length t /\ t' = firstn lo t ++ new ++ skipn hi t /\
+  t = firstn lo t ++ firstn (hi - lo) (skipn lo t) ++ skipn hi t.
 Proof.
-  intros lo hi new t t' H. unfold replace_range_incl in H.
-  destruct (Nat.leb lo (S hi) && Nat.ltb hi (List.length t)) eqn:E; [|discriminate]. inversion H; subst.
-  apply andb_prop in E. destruct E as [E1 E2]. apply Nat.leb_le in E1. apply Nat.ltb_lt in E2.
+  intros lo hi new t t' H. unfold replace_range in H.
+  destruct (Nat.leb lo hi && Nat.leb hi (List.length t)) eqn:E; [|discriminate]. inversion H; subst.
+  apply andb_prop in E. destruct E as [E1 E2]. apply Nat.leb_le in E1. apply Nat.leb_le in E2.
   repeat split; try lia.
   rewrite <- (firstn_skipn lo t) at 1. f_equal.
-  rewrite <- (firstn_skipn (S hi - lo) (skipn lo t)) at 1. f_equal.
+  rewrite <- (firstn_skipn (hi - lo) (skipn lo t)) at 1. f_equal.
   rewrite skipn_skipn'. f_equal. lia.
 Qed.
 
-(* every byte outside the attribute range (attribute + the one byte after it) and outside the inserted block is
-   preserved, in order; the block starts exactly at item_end; the attribute is deleted (remove) or replaced by a
-   subsequence of itself (marker surgery) *)
+(* every byte outside the attribute and outside the inserted block is preserved, in order; the block starts exactly
+   at item_end; the attribute is deleted (remove) or replaced by a subsequence of itself (marker surgery) *)
 Local Opaque inserted.
 Theorem assembly_frame : forall src item_end a_idx a_str remove obj init block out,
   edit_write src item_end a_idx a_str remove obj init block = Some out ->
   exists A old B new sfx,
     src = A ++ old ++ B ++ sfx /\
     out = A ++ new ++ B ++ inserted obj init block ++ sfx /\
-    List.length A = a_idx /\ List.length old = List.length a_str + 1 /\
+    List.length A = a_idx /\ List.length old = List.length a_str /\
     List.length (A ++ old ++ B) = item_end /\
     (remove = true -> new = []) /\ (remove = false -> subseq new old /\ edit_remove a_str old = Some new).
 Proof.
@@ -82,31 +81,30 @@ Proof.
   remember (firstn item_end src) as prefix eqn:Ep.
   assert (Lp : List.length prefix = item_end) by (subst prefix; rewrite firstn_length; lia).
   set (e := a_idx + List.length a_str) in *.
-  assert (K : forall new, replace_range_incl a_idx e new prefix = Some p ->
+  assert (K : forall new, replace_range a_idx e new prefix = Some p ->
      exists A old B, src = A ++ old ++ B ++ skipn item_end src /\ p = A ++ new ++ B /\ List.length A = a_idx /\
-       List.length old = List.length a_str + 1 /\ List.length (A ++ old ++ B) = item_end /\
-       old = firstn (S e - a_idx) (skipn a_idx prefix)).
-  { intros new R. apply replace_range_incl_split in R. destruct R as [R1 [R2 [R3 R4]]].
-    exists (firstn a_idx prefix), (firstn (S e - a_idx) (skipn a_idx prefix)), (skipn (S e) prefix).
+       List.length old = List.length a_str /\ List.length (A ++ old ++ B) = item_end /\
+       old = firstn (e - a_idx) (skipn a_idx prefix)).
+  { intros new R. apply replace_range_split in R. destruct R as [R1 [R2 [R3 R4]]].
+    exists (firstn a_idx prefix), (firstn (e - a_idx) (skipn a_idx prefix)), (skipn e prefix).
     split; [|split; [|split; [|split; [|split]]]]; auto.
     - rewrite <- (firstn_skipn item_end src) at 1. rewrite <- Ep. rewrite R4 at 1. rewrite <- !app_assoc. reflexivity.
     - rewrite firstn_length. unfold e in *. lia.
     - rewrite firstn_length, skipn_length. unfold e in *. lia.
     - rewrite <- R4. exact Lp. }
   destruct remove.
-  - destruct (replace_range_incl a_idx e [] prefix) as [p'|] eqn:R; [|discriminate]. inversion Sp; subst.
+  - destruct (replace_range a_idx e [] prefix) as [p'|] eqn:R; [|discriminate]. inversion Sp; subst.
     destruct (K [] R) as [A [old [B [K1 [K2 [K3 [K4 [K5 K6]]]]]]]].
     exists A, old, B, [], (skipn item_end src). subst p. rewrite <- !app_assoc. simpl.
     repeat split; auto; discriminate.
-  - destruct (slice a_idx (S e) prefix) as [old0|] eqn:Sl; [|discriminate].
+  - destruct (slice a_idx e prefix) as [old0|] eqn:Sl; [|discriminate].
     destruct (edit_remove a_str old0) as [new|] eqn:ER; [|discriminate].
-    destruct (replace_range_incl a_idx e new prefix) as [p'|] eqn:R; [|discriminate]. inversion Sp; subst.
+    destruct (replace_range a_idx e new prefix) as [p'|] eqn:R; [|discriminate]. inversion Sp; subst.
     destruct (K new R) as [A [old [B [K1 [K2 [K3 [K4 [K5 K6]]]]]]]].
     apply slice_some in Sl. destruct Sl as [_ [_ Sl]]. rewrite <- K6 in Sl. subst old0.
     exists A, old, B, new, (skipn item_end src). subst p. rewrite <- !app_assoc.
     repeat split; auto; try discriminate. eapply edit_remove_subseq; eauto.
 Qed.
-
 Local Transparent inserted.
 
 (* ItemCodeBlock::new on an LF-only text: lines().join("\n") drops exactly one final terminator *)
